@@ -929,6 +929,19 @@ func (c *layoutCtx) extractDec(evs []*Event, sink func(wireIDs []int, loop int) 
 			}
 			out = append(out, f)
 		case EvReadBytes:
+			// a number assembled by hand: ReadFull of N bytes, then ByteOrder.UintN over exactly those bytes
+			if n, okN := affOf(ev.Size).IsConst(); okN {
+				if name, idx, v, okS := sink([]int{ev.ID}, 0); okS {
+					if it, ord, okI := manualInt(v, ev.ID, n); okI {
+						f := &FieldLayout{Kind: "int", Type: typeStr(it), Order: ord, Name: name, GoField: idx, Pos: rootPos(ev), Ev: []*Event{ev}, WireIDs: []int{ev.ID}}
+						if n == 1 {
+							f.Order = ""
+						}
+						out = append(out, f)
+						continue
+					}
+				}
+			}
 			f := &FieldLayout{Kind: "fixed", GoField: -1, Pos: rootPos(ev), Ev: []*Event{ev}, WireIDs: []int{ev.ID}}
 			n, ok := affOf(ev.Size).IsConst()
 			if !ok {
@@ -1146,4 +1159,51 @@ func verifyScan(loop *Event, W *Val, left bool) (*Val, bool) {
 		return nil, false
 	}
 	return p, true
+}
+
+// manualInt: v is T(ByteOrder.UintN(wire#id)) with N bytes read and T an integer type of the same size.
+func manualInt(v *Val, id int, n int64) (types.Type, string, bool) {
+	v = stripCT(v)
+	var outer types.Type
+	for v.Op == "conv" && isIntegerType(v.Type) {
+		if outer == nil {
+			outer = v.Type
+		}
+		v = stripCT(v.Args[0])
+	}
+	if v.Op != "call" || len(v.Args) != 1 {
+		return nil, "", false
+	}
+	ord := ""
+	switch {
+	case strings.HasPrefix(v.Name, "(encoding/binary.bigEndian).Uint"):
+		ord = "BE"
+	case strings.HasPrefix(v.Name, "(encoding/binary.littleEndian).Uint"):
+		ord = "LE"
+	default:
+		return nil, "", false
+	}
+	var it types.Type
+	switch v.Name[strings.LastIndex(v.Name, "Uint")+4:] {
+	case "16":
+		it = types.Typ[types.Uint16]
+	case "32":
+		it = types.Typ[types.Uint32]
+	case "64":
+		it = types.Typ[types.Uint64]
+	default:
+		return nil, "", false
+	}
+	sz, _ := fixedSize(it)
+	arg := stripCT(v.Args[0])
+	if sz != n || arg.Op != "wire" || arg.ID != id {
+		return nil, "", false
+	}
+	if outer != nil {
+		if osz, ok := fixedSize(outer); !ok || osz != sz {
+			return nil, "", false
+		}
+		it = outer
+	}
+	return it, ord, true
 }
